@@ -1,4 +1,4 @@
-CONSTANTS MaxK = 1 Values = {2} Codes = {5} Scope = "all" Mutant = "none"
+CONSTANTS MaxK = 1 Values = {2} Codes = {5} Insts = {1, 2} Scope = "all" Mutant = "none"
 SPECIFICATION Spec
 INVARIANT Inv_Reject
 INVARIANT Inv_RejectKind
